@@ -3,16 +3,19 @@
 #include "cmd_parse.h"
 #include "common.h"
 
+#include <memory>
+
 namespace vmerge {
 
 template <typename Doc>
-static void run_schema(const std::vector<std::string>& t, std::string& out) {
+static void run_schema(const std::vector<std::string>& t, std::string& out, bool copy = false) {
   std::string ex;
   if (!unhex(t[2], ex)) {
     out = "bad-op";
     return;
   }
-  Doc d;
+  std::unique_ptr<Doc> dp(new Doc());
+  Doc& d = *dp;
   d.Parse(ex.data(), ex.size());
   if (d.HasParseError()) {
     out = "bad-input";
@@ -32,17 +35,32 @@ static void run_schema(const std::vector<std::string>& t, std::string& out) {
     out += "err=" + std::to_string((int)d.GetParseError()) + " tree=";
     vparse::tree(d, out);
   }
+  if (copy) {
+    // schema-copy: deep copy (default copyString = false) of the updated document into a second document, destroy the source
+    // (with a freeing allocator its buffers are released and, under the tracking allocator, poisoned), re-parse something into a
+    // fresh third document to recycle memory, then read the copy back: it must still be the final tree
+    Doc c;
+    c.CopyFrom(d, c.GetAllocator());
+    dp.reset();
+    {
+      Doc scratch;
+      scratch.Parse(ex.data(), ex.size());
+    }
+    out += " copy=";
+    vparse::tree(c, out);
+  }
 }
 
 static void cmd(const std::vector<std::string>& t, std::string& out) {
-  if (t[0] == "schema" && t.size() >= 4) {
+  if ((t[0] == "schema" || t[0] == "schema-copy") && t.size() >= 4) {
+    bool copy = t[0] == "schema-copy";
     if (t[1] == "pool") {
-      run_schema<vparse::PoolDoc>(t, out);
+      run_schema<vparse::PoolDoc>(t, out, copy);
     } else if (t[1] == "simple") {
-      run_schema<vparse::SimpleDoc>(t, out);
+      run_schema<vparse::SimpleDoc>(t, out, copy);
     } else if (t[1] == "track") {
       vh::ledger().reset();
-      run_schema<vparse::TrackDoc>(t, out);
+      run_schema<vparse::TrackDoc>(t, out, copy);
       if (out != "bad-op" && out != "bad-input") out += " ledger=" + vh::ledger().report(true);
     } else {
       out = "bad-op";
